@@ -101,13 +101,15 @@ def run(c, facts, tier):
             good = {k: v[1] for k, v in good_full.items() if v[0] == "string"}
             callee = h.get("callee") if h.get("kind") == "call" else None
             raw = h.get("kind") == "param"
-            okd = callee in good and {'"', "\\"} <= good[callee]
+            argc = [emit.canon(a_) for a_ in h.get("args", [])] if callee else []
+            raw_arg = len(argc) == 1 and re.fullmatch(r"@\d+", argc[0]) is not None
+            okd = callee in good and {'"', "\\"} <= good[callee] and raw_arg
             c.ob(
                 "C20.decodes",
                 "CompiledExpression::scheme",
                 "hole %s in a string literal" % emit.canon(h),
                 okd,
-                "the device path is %s" % ("escaped by %s" % callee if okd else "interpolated raw: a path containing \" or \\ does not decode to itself and changes the structure of the program"),
+                "the device path is %s" % ("escaped by %s" % callee if okd else ("escaped, but what is escaped is `%s`, not the path given: the literal does not decode to the path" % argc if callee in good else "interpolated raw: a path containing \" or \\ does not decode to itself and changes the structure of the program")),
                 witness='scheme("/dev/a\\"b")' if not okd else None,
             )
     if tier == "thorough":
